@@ -44,6 +44,19 @@ func h5Main(env *Env, c *H5Cfg, sh *h5Shared) {
 			return
 		}
 	}
+	if c.ViaBuilder && twin == nil {
+		plain := *c
+		plain.ViaBuilder = false
+		twin, err = h5Build(env, &plain, sh)
+		if err != nil {
+			sh.buildErr = err.Error()
+			return
+		}
+		sh.ratesDurNs = int64(twin.Duration) // (the builder's trigger duration is the run's max duration for open-ended profiles)
+		if c.Kind == "staged" { // (the ramp builder reports no duration of its own: the run's max duration bounds it)
+			sh.ratesDurNs = int64(rates.Duration)
+		}
+	}
 	wrapped := func(t time.Time) int {
 		if k := len(sh.outer); k >= 1 && len(c.EvalSleepNs) > 0 {
 			// a slow evaluation (a blocked callee): the tick is handled late, later ticks are overdue
